@@ -41,6 +41,8 @@ import (
 	"github.com/NVIDIA/KAI-scheduler/pkg/scheduler/conf_util"
 	"github.com/NVIDIA/KAI-scheduler/pkg/scheduler/framework"
 	"github.com/NVIDIA/KAI-scheduler/pkg/scheduler/plugins"
+	putils "github.com/NVIDIA/KAI-scheduler/pkg/scheduler/plugins/proportion/utils"
+	rs "github.com/NVIDIA/KAI-scheduler/pkg/scheduler/plugins/proportion/resource_share"
 	"github.com/NVIDIA/KAI-scheduler/pkg/scheduler/test_utils"
 
 	"kaiverif/internal/core"
@@ -207,6 +209,9 @@ type Built struct {
 	Jobs   map[common_info.PodGroupID]*podgroup_info.PodGroupInfo
 	Queues map[common_info.QueueID]*queue_info.QueueInfo
 	Rep    *reporter
+	// size observations of the cycle (RunActions)
+	Sizes             []SizeObs
+	PartialPlacements int
 }
 
 // startedAgo: every running job looks as if it started this long ago (beyond any
@@ -330,6 +335,7 @@ func Build(w *World) *Built {
 	ctrl := gomock.NewController(b.Rep)
 	// session without plugins first, so that the overrides are in place when the plugins open
 	b.Ssn = test_utils.CreateFakeSession(nil, b.Nodes, b.Jobs, queues, meta, ctrl, true, nil, cpai)
+	b.Ssn.ClusterInfo.MinNodeGPUMemory = minNodeGPUMemory(b.Nodes)
 	b.Ssn.OverrideMaxNumberConsolidationPreemptees(w.Cfg.MaxConsolidation)
 	b.Ssn.OverrideAllowConsolidatingReclaim(w.Cfg.ConsolidatingReclaim)
 	ts := tiers(w.Cfg)
@@ -352,6 +358,23 @@ func Build(w *World) *Built {
 	return b
 }
 
+// minNodeGPUMemory is what cache/cluster_info.snapshotNodes hands to the session as ClusterInfo.MinNodeGPUMemory
+// (test_utils.CreateFakeSession hard-codes node_info.DefaultGpuMemory): the loop is copied literally. NOTE: it starts
+// from DefaultGpuMemory (100) and only takes the minimum with nodes whose memory is ABOVE that, so the value is 100
+// whatever the nodes report - with real device memories (label nvidia.com/gpu.memory) a pending gpu-memory request of
+// M MiB is therefore counted as M/100 GPUs by GetTasksToAllocateInitResource / updateQueuesCurrentResourceUsage while
+// it is charged ceil(M / deviceMemory) once placed (over-counted, never under-counted).
+func minNodeGPUMemory(nodes map[string]*node_info.NodeInfo) int64 {
+	var minGPUMemory int64 = node_info.DefaultGpuMemory
+	for _, n := range nodes {
+		nodeGPUMemory := n.MemoryOfEveryGpuOnNode
+		if nodeGPUMemory > node_info.DefaultGpuMemory {
+			minGPUMemory = min(minGPUMemory, nodeGPUMemory)
+		}
+	}
+	return minGPUMemory
+}
+
 // mkPod is core.MkPod plus the scheduler name: without it the proportion plugin
 // counts a running pod as "scheduled by a different scheduler" and subtracts its
 // resources from the cluster total the fair shares are computed from.
@@ -365,7 +388,123 @@ func mkPod(p core.PodSpec, vm *resource_info.ResourceVectorMap) *pod_info.PodInf
 	return ti
 }
 
-// RunActions executes the configured actions; a panic is returned as text.
+// SizeObs is one observation of "gate size = charged size" (Model/ClosedSystem.v size_consistent) on the real code:
+// right before an action runs, the harness asks the real podgroup_info.GetTasksToAllocate /
+// GetTasksToAllocateInitResource for the pods the job would place next and for the request the scheduler counts the
+// job by (this is the value proportion.buildReclaimerInfo puts in ReclaimerInfo.RequiredResources, what queue_order
+// adds to a queue "with the job" and what the capacity gates read; the calls only fill the job's caches with the
+// values the action computes itself with the same arguments).  After the action, if exactly those pods were placed
+// (bound or pipelined), Charged is the sum of what the proportion plugin's allocate handler charged the queue for
+// them: utils.QuantifyResourceRequirements(task.AcceptedResource).  Units: GPUs.
+type SizeObs struct {
+	Action, Job   string
+	Kind          string  // whole | fraction | multi-fraction | gpu-memory | multi-gpu-memory | cpu | mixed
+	Gate, Charged float64 // GPUs
+	Devices       int64   // number of shared devices over the placed pods (each rounds its portion up to 1/100 GPU)
+	Homogeneous   bool    // every pod was placed on a node whose device memory is the session's MinNodeGPUMemory
+	Evicting      bool    // the action committed an eviction with this job as preemptor
+}
+
+type pendingGate struct {
+	job   *podgroup_info.PodGroupInfo
+	pods  []common_info.PodID
+	gate  float64
+	kinds map[string]bool
+}
+
+func podKind(t *pod_info.PodInfo) string {
+	n := t.ResReq.GpuResourceRequirement.GetNumOfGpuDevices()
+	switch {
+	case t.IsMemoryRequest() && n > 1:
+		return "multi-gpu-memory"
+	case t.IsMemoryRequest():
+		return "gpu-memory"
+	case t.ResReq.GpuResourceRequirement.IsFractionalRequest() && n > 1:
+		return "multi-fraction"
+	case t.ResReq.GpuResourceRequirement.IsFractionalRequest():
+		return "fraction"
+	case t.ResReq.GPUs() > 0:
+		return "whole"
+	}
+	return "cpu"
+}
+
+// gatesBefore asks the real code, for every job with pending pods, which pods it would place next and what it counts
+// the job by.  isReal as the action itself passes it (allocate: true, every other action: false).
+func gatesBefore(b *Built, action string) []pendingGate {
+	ssn := b.Ssn
+	isReal := action == "allocate"
+	var ids []string
+	for id := range b.Jobs {
+		ids = append(ids, string(id))
+	}
+	sort.Strings(ids)
+	var out []pendingGate
+	for _, id := range ids {
+		job := b.Jobs[common_info.PodGroupID(id)]
+		if len(job.PodStatusIndex[pod_status.Pending]) == 0 {
+			continue
+		}
+		tasks := podgroup_info.GetTasksToAllocate(job, ssn.PodSetOrderFn, ssn.TaskOrderFn, isReal)
+		if len(tasks) == 0 {
+			continue
+		}
+		res := podgroup_info.GetTasksToAllocateInitResource(job, ssn.PodSetOrderFn, ssn.TaskOrderFn, isReal, ssn.ClusterInfo.MinNodeGPUMemory)
+		g := pendingGate{job: job, gate: putils.QuantifyResource(res)[rs.GpuResource], kinds: map[string]bool{}}
+		for _, t := range tasks {
+			g.pods = append(g.pods, t.UID)
+			g.kinds[podKind(t)] = true
+		}
+		out = append(out, g)
+	}
+	return out
+}
+
+func (b *Built) sizesAfter(action string, gates []pendingGate, from int) {
+	preemptors := map[string]bool{}
+	for _, c := range b.Rec.calls[from:] {
+		if c.Kind == "evict" && c.Preemptor != "" {
+			preemptors[c.Preemptor] = true
+		}
+	}
+	for _, g := range gates {
+		placed, charged, devs, homog := 0, 0.0, int64(0), true
+		all := g.job.GetAllPodsMap()
+		for _, uid := range g.pods {
+			t := all[uid] // after a Commit the job's map holds the statement's clone of the task
+			if t == nil || t.AcceptedResource == nil ||
+				!(t.Status == pod_status.Allocated || t.Status == pod_status.Binding || t.Status == pod_status.Pipelined || t.Status == pod_status.Bound) {
+				continue
+			}
+			placed++
+			charged += putils.QuantifyResourceRequirements(t.AcceptedResource)[rs.GpuResource]
+			if t.AcceptedResource.GpuResourceRequirement.IsFractionalRequest() {
+				devs += t.AcceptedResource.GpuResourceRequirement.GetNumOfGpuDevices()
+			}
+			if n := b.Nodes[t.NodeName]; n == nil || n.MemoryOfEveryGpuOnNode != b.Ssn.ClusterInfo.MinNodeGPUMemory {
+				homog = false
+			}
+		}
+		if placed == 0 {
+			continue
+		}
+		if placed != len(g.pods) {
+			b.PartialPlacements++
+			continue
+		}
+		kind := "mixed"
+		if len(g.kinds) == 1 {
+			for k := range g.kinds {
+				kind = k
+			}
+		}
+		b.Sizes = append(b.Sizes, SizeObs{Action: action, Job: g.job.Name, Kind: kind, Gate: g.gate, Charged: charged, Devices: devs,
+			Homogeneous: homog, Evicting: preemptors[g.job.Name]})
+	}
+}
+
+// RunActions executes the configured actions; a panic is returned as text.  Around every action the size
+// observations (SizeObs) are collected into b.Sizes.
 func RunActions(b *Built, names []string) (panicked string) {
 	defer func() {
 		if r := recover(); r != nil {
@@ -377,7 +516,10 @@ func RunActions(b *Built, names []string) (panicked string) {
 		if !ok {
 			panic("unknown action " + a)
 		}
+		gates := gatesBefore(b, a)
+		from := len(b.Rec.calls)
 		act.Execute(b.Ssn)
+		b.sizesAfter(a, gates, from)
 	}
 	return ""
 }
@@ -412,25 +554,72 @@ func (w *World) Apply(calls []Call) (evictions int) {
 	return evictions
 }
 
-// Canon is the canonical world state: sorted pod -> status/node/groups, GPU-group
-// names (random UUIDs) renamed in first-appearance order.
-func (w *World) Canon() string {
+// canonGroups names GPU groups canonically (the scheduler draws random names): a group is identified by its node
+// and the SET of pods that hold it; the result maps a pod to the sorted ranks of its groups' identities (two groups
+// held by exactly the same pods are interchangeable and get the same rank, the pod then lists it twice).
+func canonGroups(ps []*core.PodSpec) map[string][]int {
+	members := map[string][]string{}
+	for _, p := range ps {
+		if p.Status == pod_status.Pending {
+			continue
+		}
+		for _, g := range p.Groups {
+			k := p.Node + "/" + g
+			members[k] = append(members[k], p.Name)
+		}
+	}
+	ident := map[string]string{}
+	var idents []string
+	seen := map[string]bool{}
+	for k, m := range members {
+		sort.Strings(m)
+		id := k[:strings.Index(k, "/")] + ":" + strings.Join(m, ",")
+		ident[k] = id
+		if !seen[id] {
+			seen[id] = true
+			idents = append(idents, id)
+		}
+	}
+	sort.Strings(idents)
+	rank := map[string]int{}
+	for i, id := range idents {
+		rank[id] = i + 1
+	}
+	out := map[string][]int{}
+	for _, p := range ps {
+		if p.Status == pod_status.Pending {
+			continue
+		}
+		var gs []int
+		for _, g := range p.Groups {
+			gs = append(gs, rank[ident[p.Node+"/"+g]])
+		}
+		sort.Ints(gs)
+		out[p.Name] = gs
+	}
+	return out
+}
+
+func (w *World) podPtrs() []*core.PodSpec {
 	var ps []*core.PodSpec
 	for ji := range w.Jobs {
 		for pi := range w.Jobs[ji].Pods {
 			ps = append(ps, &w.Jobs[ji].Pods[pi])
 		}
 	}
+	return ps
+}
+
+// Canon is the canonical world state: sorted pod -> status/node/groups, GPU groups named canonically (canonGroups).
+func (w *World) Canon() string {
+	ps := w.podPtrs()
 	sort.Slice(ps, func(i, j int) bool { return ps[i].Name < ps[j].Name })
-	ren := map[string]string{}
+	cg := canonGroups(ps)
 	var sb strings.Builder
 	for _, p := range ps {
 		var gs []string
-		for _, g := range p.Groups {
-			if _, ok := ren[g]; !ok {
-				ren[g] = fmt.Sprintf("G%d", len(ren)+1)
-			}
-			gs = append(gs, ren[g])
+		for _, g := range cg[p.Name] {
+			gs = append(gs, fmt.Sprintf("G%d", g))
 		}
 		st := "P"
 		if p.Status != pod_status.Pending {
